@@ -1222,6 +1222,8 @@ Proof.
   - cbn. rewrite upd_other; [lia|]. intros [= ->]. rewrite N.eqb_refl in E. discriminate.
 Qed.
 
+Lemma mem_set_same sh loc v : mem (m_set sh loc v) loc = v.
+Proof. cbn. apply upd_same. Qed.
 Lemma curv_set_ctl sh n v c : curv (m_set sh (LCtrl n) v) c = curv sh c.
 Proof. unfold curv. cbn. apply upd_other. discriminate. Qed.
 Lemma headn_set_ctl sh n v : headn (m_set sh (LCtrl n) v) = headn sh.
@@ -1248,7 +1250,43 @@ Proof.
     apply goto_ok; try lia.
     + rewrite headn_set_ctl. ar.
     + rewrite headn_set_ctl. ar.
-    + cbn [tpred]. rewrite Ho. cbn. rewrite upd_same, N.eqb_refl.
-      fold (m_set sh (LCtrl (own_node l)) gt). rewrite curv_set_ctl. apply pred_le_refl.
+    + cbn [tpred]. rewrite Ho, mem_set_same, N.eqb_refl, curv_set_ctl. apply pred_le_refl.
     + intros _ c0. apply curv_set_ctl.
     + intros w ctl. cbn [tcz]. rewrite Ho. apply phi2_set_ctl_cz.
+  - (* LH3 *)
+    destruct (tl_node l); [destruct (cf_debug cf)|]; intros [= <- <- <- <-]; try exact I; gk.
+  - (* LH3d *)
+    destruct (_ =? NODE_USED); intros [= <- <- <- <-]; try exact I; gk.
+  - (* LH4 *)
+    destruct (_ && _); intros [= <- <- <- <-]; try exact I. gk.
+Qed.
+
+Lemma exec_load_H2 cf sh l p x k sh' l' evs nx :
+  match p with
+  | LH5 _ _ _ | LH6a _ | LH6b _ | LH6c _ | LH7 _ _ | LH8 _ _ _ | LH9 _ _ | LH10 _ _ => True
+  | _ => False
+  end ->
+  exec cf sh l p x = (sh', l', evs, nx) ->
+  step_ok sh l k p sh' l' k nx.
+Proof.
+  intros Hg. destruct p; try contradiction; clear Hg; unfold exec;
+    cbn [a_load a_cas a_store a_swap a_fadd a_fsub andb negb] in *.
+  - (* LH5 *)
+    assert (G : forall p', np_top (m_set sh (LCtrl (own_node l)) IDLE) k p' = 0 ->
+              tcost (m_set sh (LCtrl (own_node l)) IDLE) k (headn sh) p' < 8 ->
+              pred_le (tpred (m_set sh (LCtrl (own_node l)) IDLE) l p') (tpred sh l (LH5 c gt cand)) ->
+              tcz l p' = None ->
+              step_ok sh l k (LH5 c gt cand) (m_set sh (LCtrl (own_node l)) IDLE) l k (NGoto p')).
+    { intros p' Hn HC Hp Hz. apply goto_ok; try lia.
+      - rewrite headn_set_ctl, Hn. ar.
+      - rewrite headn_set_ctl, Hn, Nat.add_0_r. ar.
+      - exact Hp.
+      - intros _ c0. apply curv_set_ctl.
+      - intros w ctl. rewrite Hz. cbn [tcz]. apply phi2_set_idle. }
+    destruct (mem sh (LCtrl (own_node l)) =? gt) eqn:E.
+    + destruct (cand =? 0); intros [= <- <- <- <-]; apply G; try reflexivity; ar;
+        cbn [tpred]; rewrite E; apply pred_le_refl.
+    + destruct (_ && _); intros [= <- <- <- <-]; [exact I|]. apply G; try reflexivity; ar.
+      cbn [tpred]. rewrite E. apply pred_le_none.
+  - (* LH6a *)
+    destruct (rc_inc sh cand) as [[s2 evs2]|] eqn:Hd; intros [= <- <- <- <-]; [gk|exact I].
